@@ -20,7 +20,11 @@ python3 - <<'PY'
 import json,os
 p='/tmp/qs/out/meta.json'
 if not os.path.exists(p): print('no meta.json (harness died)'); raise SystemExit
-m=json.load(open(p)); print('oracle checks',m['oracle_checks'],'failures',len(m['oracle_failures']))
-for f in m['oracle_failures'][:3]: print('  ',json.dumps(f)[:500])
+m=json.load(open(p))
+import re
+known=set(re.findall(r'^finding:\s+property=\S+\s+key=(\S+)', open(os.environ.get('V','/verif')+'/KNOWN_FINDINGS.txt').read(), re.M))
+new=[f for f in m['oracle_failures'] if f.get('kf') not in known]
+print('oracle checks',m['oracle_checks'],'failures',len(m['oracle_failures']),'not known findings',len(new))
+for f in new[:3]: print('  ',json.dumps(f)[:600])
 PY
 git -C $R checkout -q -- .
